@@ -169,6 +169,7 @@ pub fn parse_content(s: &str) -> Option<Vec<u8>> {
     let parts: Vec<&str> = s.split(':').collect();
     match parts.as_slice() {
         ["gen", l, sd] => Some(gen_bytes(l.parse().ok()?, sd.parse().ok()?)),
+        ["zero", l] => Some(vec![0u8; l.parse().ok()?]),
         [h] => unhex(h),
         _ => None,
     }
